@@ -260,6 +260,7 @@ def build(seed, tier, focus='all'):
         c.variant("Off"),
         c.variant("Level", style="newtype", t=U),
         c.variant("MaybeName", style="newtype", t=O),
+        c.variant("Verbose", style="newtype", t=B),          # an inner type with a bare-word meaning but no value-for-absent
         c.variant("Custom", style="struct", fields=[field("low", U), field("high", U, default="trait"), field("label", O)]),
         c.variant("Hidden", skip=True),
         c.variant("HiddenData", style="newtype", t=V, skip=True),
@@ -274,12 +275,14 @@ def build(seed, tier, focus='all'):
     flat_inner = c.struct([field("width", U), field("label", O), field("extra", V, default="trait")])
     flat_mid = c.struct([field("depth", U, default="trait"), field("rest", ty("recv", flat_inner), flatten=True)])
     # `allow_unknown_fields = false` written out on the enum (the same as not writing it), a struct variant under it
+    # a skipped variant is never produced - not even when it also claims the bare word
+    e_skipword = c.enum([c.variant("Plain"), c.variant("Ghost", skip=True, word=True), c.variant("Other", rename="oth")])
     e_strict = c.enum([c.variant("Plain"), c.variant("Hello", style="struct", rename="hi", fields=[field("user", V), field("silent", B, default="trait")])])
     c.decls[e_strict - 1]["allow_unknown_false"] = True
     # a struct variant is parsed as a struct receiver: its own flatten member receives what it does not know
     e_flat = c.enum([c.variant("Off"), c.variant("Tuned", style="struct", fields=[field("level", U), field("extra", ty("recv", flat_inner), flatten=True)])],
                     rename_all="snake_case")
-    enums = [e_plain, e_mixed, e_word, e_fn, e_pascal, e_strict, e_flat]
+    enums = [e_plain, e_mixed, e_word, e_fn, e_pascal, e_strict, e_flat, e_skipword]
 
     # --- FromMeta roots: every single option on the designated field, each crossed with container options
     def root(fields, **kw):
@@ -357,7 +360,7 @@ def build(seed, tier, focus='all'):
              attrs_field=("none" if tr == "FromAttributes" else "plain"), magic_ident=(tr != "FromAttributes"))
         if tr != "FromAttributes":
             root([field("max_volume", V, default="fn"), field("inner", ty("recv", leaf), default="trait")],
-                 trait=tr, attr_names=["x"], max_items=2, max_attrs=3, forward="only", forward_names=["doc", "keep"],
+                 trait=tr, attr_names=["x"], max_items=2, max_attrs=3, forward="only", forward_names=["keep", "doc"],
                  attrs_field="plain", magic_ident=True, rename_all="camelCase")
     root([field("name", V), field("rest", ty("recv", flat_inner), flatten=True)], trait="FromDeriveInput",
          attr_names=["x"], max_items=3, max_attrs=2)
@@ -375,7 +378,7 @@ def build(seed, tier, focus='all'):
          max_items=2, max_attrs=2, magic_ident=True)
 
     # --- seeded random declarations over the whole option product --------------------------------
-    nrand = 12 if tier == "quick" else 150
+    nrand = 12 if tier == "quick" else 80
     for _ in range(nrand):
         nf = rng.randint(1, 3)
         fields = []
